@@ -15,6 +15,7 @@ OPS = [
     ("rename", "R/a", "/other/a"), ("rename", "/other/o", "R/o"), ("rename", "R/a", "X/a"), ("rename", "X/s", "R/s"),
     ("rendir", "R/d", "/other/d"), ("rendir", "/other/f", "R/f"),
     ("create", "R/priv/p", None), ("write", "R/priv/k", None),
+    ("create-same", "/other/same", None),      # a file outside the root with exactly the content /a was synchronised with
 ]
 
 
@@ -110,9 +111,10 @@ def _factory(params, env=None):
         try:
             first = params.get("first")
             touched_priv = [False, False]
+            prefix = params.get("prefix") or ([first] if first else [])
             for k in range(params["nops"]):
-                if k == 0 and first:
-                    side, oi = first
+                if k < len(prefix):
+                    side, oi = prefix[k]
                 else:
                     side = e.choose("side", 2)
                     sub = params.get("subset")
@@ -122,7 +124,10 @@ def _factory(params, env=None):
 
                 def ab(p):
                     return None if p is None else p.replace("R/", rt + "/", 1).replace("X/", rt + "x/", 1) if p[0] in "RX" else p
-                d = _account_op(lab, side, kind, ab(src), ab(dst), b"v%d" % k)
+                content = b"v%d" % k
+                if kind == "create-same":
+                    kind, content = "create", b"base-a"
+                d = _account_op(lab, side, kind, ab(src), ab(dst), content)
                 h.hist.append((side,) + d)
                 if d[0] not in ("noop", "failed"):
                     h.real_ops += 1
@@ -262,6 +267,11 @@ def jobs(tier):
                 for oi in (9, 11, 13):
                     out.append({"harness": "confine", "params": {"flavour": f, "variant": "by-path", "nops": 2, "slots": 1, "first": [side, oi]},
                                 "label": "%s/by-path/2-ops/first=%d:%s" % (f, side, "-".join(str(x) for x in OPS[oi] if x))})
+    # a file is deleted inside the root and a byte-identical one appears outside it before the next sync step (a delete must not be re-read as a move out), then anything
+    for f, sides in (("path", (0, 1)), ("mixed", (0,))):
+        for side in sides:
+            out.append({"harness": "confine", "params": {"flavour": f, "variant": "by-path", "nops": 3, "slots": 1, "prefix": [[side, 2], [side, 17]]},
+                        "label": "%s/by-path/3-ops/prefix=%d:delete-a+same-content-file-outside" % (f, side)})
     # accounts that differ in case sensitivity: membership in a root is decided by the rules of the account the path lives in
     for f in ("oid-cics", "oid-csci"):
         for side in (0, 1):
